@@ -425,3 +425,31 @@ Example discovery_cover_example :
       [(HWLOC_OBJ_PACKAGE, bs_of_N 15); (HWLOC_OBJ_CORE, bs_of_N 3); (HWLOC_OBJ_PU, bs_of_N 1); (HWLOC_OBJ_PU, bs_of_N 2);
        (HWLOC_OBJ_CORE, bs_of_N 12); (HWLOC_OBJ_PU, bs_of_N 4); (HWLOC_OBJ_PU, bs_of_N 8)].
 Proof. exact discovery_covers_example. Qed.
+
+(* ---------- the put-back path is never taken by a backend whose requested cpusets are pairwise nested or
+   disjoint (Topo/DiscLaminarProofs.v); the synthetic backend is one (synthetic_requests_are_laminar) ---------- *)
+From HV Require Import Topo.DiscLaminarProofs.
+
+Theorem laminar_requests_never_put_back : forall dms dm_new od, wfk od -> forall cur,
+  Forall (fun c => wfk (odata c) /\ DiscLaminarProofs.lam2 (ApiProofs.dcs od) (okey c)) (nflattens (onch cur)) ->
+  forall o, odata o = od -> snd (insert_by_cpuset dms dm_new cur o) <> OFail.
+Proof. exact laminar_insert_never_fails. Qed.
+Print Assumptions laminar_requests_never_put_back.
+
+(* hence a discovery whose requests are pairwise nested or disjoint IS a run in the sense of the theorems above
+   as soon as the other hypotheses (usable cpusets, no unmergeable equal Groups) hold on the states it goes through *)
+Theorem laminar_discovery_is_a_run : forall root steps,
+  disc_ord root -> onch root = [] ->
+  ForallOrdPairs (fun a b => DiscLaminarProofs.lam2 (key_of a) (key_of b) /\ DiscLaminarProofs.lam2 (key_of b) (key_of a)) steps ->
+  (forall pre dms dm o post, steps = pre ++ (dms, dm, o) :: post -> disc_hyp dms dm (run_model root pre) o) ->
+  disc_run root steps (run_model root steps).
+Proof. exact laminar_discovery_runs. Qed.
+Print Assumptions laminar_discovery_is_a_run.
+
+Example laminar_put_back_example :
+  exists r, disc_runb bare_root example_steps = Some r /\
+    laminar_withb (odata (rq HWLOC_OBJ_GROUP 20 255)) r = true /\
+    snd (insert_by_cpuset [] false r (rq HWLOC_OBJ_GROUP 20 255)) = OInserted /\
+    laminar_withb (odata (rq HWLOC_OBJ_GROUP 20 6)) r = false /\
+    snd (insert_by_cpuset [] false r (rq HWLOC_OBJ_GROUP 20 6)) = OFail.
+Proof. exact laminar_never_fails_example. Qed.
